@@ -22,6 +22,10 @@ def run(repo, run, tier):
     from .c06 import slope_cache
     slope_cache(repo, run, rule_id="C12.5")
     trim(repo, run, m)
+    # 'the recorded trajectory is the prefix of fully accepted steps; when tolerances cannot be met the failure is raised': a step whose stage
+    # equations were not solved must never be returned to integrate() (it would be committed, and FailedToMeetTolerances would never be raised)
+    from .c02 import newton
+    newton(repo, run, rule_id="C12.7")
 
 
 def _hnames(h):
